@@ -1600,8 +1600,7 @@ Proof using.
   - destruct (crashes_now e (c_sh c)); [apply Hcm|].
     destruct (q_mode q), (src_next e (c_sh c)); try apply Hcm;
       try (destruct (N.of_nat (length (n :: got)) =? q_n q); apply Hcm);
-      try (destruct (N.of_nat (length (n0 :: got)) =? q_n q); apply Hcm);
-      destruct got; apply Hcm.
+      try (destruct (N.of_nat (length (n0 :: got)) =? q_n q); apply Hcm).
   - destruct (q_mode q); first [apply Hfin|apply Hcm].
   - destruct (q_mode q); try apply Hfin.
     + destruct (s_y (c_sh c) =? b); [destruct (rev got)|]; apply Hfin.
